@@ -3,6 +3,7 @@ package main
 import (
 	"fmt"
 	"go/ast"
+	"go/constant"
 	"go/types"
 	"os"
 	"path/filepath"
@@ -24,6 +25,7 @@ func (e *Engine) loadSpecs(dir string) error {
 	sort.Strings(files)
 	e.specSigs = map[string]*specSig{}
 	var all strings.Builder
+	all.WriteString(e.constPrelude())
 	for _, f := range files {
 		b, err := os.ReadFile(f)
 		if err != nil {
@@ -229,4 +231,38 @@ func (c *cenv) specCall(name string, args []ast.Expr) Val {
 		t = "(" + t + " " + strings.Join(ts, " ") + ")"
 	}
 	return valOfSort(sig.result, t)
+}
+
+// constPrelude defines the integer constants of packages token and parser
+// (token_Add, parser_OpConstant, ...) from go/types on every run, so spec
+// files never hard-code them.
+func (e *Engine) constPrelude() string {
+	var b strings.Builder
+	b.WriteString("; ---- constants read from the Go packages\n")
+	for _, path := range []string{modPath + "/token", modPath + "/parser", modPath} {
+		p := e.tpkgs[path]
+		if p == nil {
+			continue
+		}
+		names := p.Scope().Names()
+		sort.Strings(names)
+		for _, n := range names {
+			c, ok := p.Scope().Lookup(n).(*types.Const)
+			if !ok {
+				continue
+			}
+			k, w, _ := kindOf(c.Type())
+			if k != KBV {
+				continue
+			}
+			x, exact := constant.Int64Val(constant.ToInt(c.Val()))
+			if !exact {
+				continue
+			}
+			name := shortPkg(path) + "_" + n
+			fmt.Fprintf(&b, "(define-fun %s () %s %s)\n", name, bvSort(w), bvConst(w, uint64(x)))
+			e.specSigs[name] = &specSig{name: name, result: bvSort(w)}
+		}
+	}
+	return b.String()
 }
